@@ -50,6 +50,9 @@ MUTANTS = [
     ("vt.contracts.misc_small", "get_symbol", "cotengra/utils.py", "    if i >= 55296:", "    if i > 55296:"),
     ("vt.contracts.hyper_score", "ComputeScore", "cotengra/hyperoptimizers/hyper.py", '        except BadTrial:\n            trial = {\n                "score": float("inf"),', '        except BadTrial:\n            trial = {\n                "score": 0.0,'),
     ("vt.contracts.hyper_score", "_maybe_report", "cotengra/hyperoptimizers/hyper.py", '        self.costs_flops.append(trial["flops"])', '        self.costs_flops.append(trial["write"])'),
+    ("vt.contracts.einsum_eq", "get_einsum_eq", "cotengra/core.py", "            for i, ix in enumerate(unique(itertools.chain(l_inds, r_inds)))\n        }", "            for i, ix in enumerate(unique(itertools.chain(l_inds, r_inds)))\n            if not ix.isascii()\n        }"),
+    ("vt.contracts.einsum_eq", "get_einsum_eq", "cotengra/core.py", "enumerate(unique(itertools.chain(l_inds, r_inds)))", "enumerate(unique(l_inds))"),
+    ("vt.contracts.einsum_eq", "get_einsum_eq", "cotengra/core.py", "ord(ix): get_symbol(i)", "ord(ix): get_symbol(i % 52)"),
 ]
 
 _CHILD = r'''
